@@ -40,10 +40,32 @@ func stress() {
 					mem.Write(wire([][2]string{{"5f6f706964", "37"}, {"5f636964", "61"}}))
 					c, _ = p.ReadRequestHeader()
 				}
-				// concurrent reads and writes on one shared context
+				// concurrent reads and writes on one shared context, through every method and through the
+				// protocol functions that take a context (an unguarded map access is a fatal runtime error)
 				shared.AddRequestHeader("k"+strconv.Itoa(w), strconv.Itoa(i))
 				shared.RequestHeaders()
 				shared.SetTimeout(5)
+				shared.AddResponseHeader("r"+strconv.Itoa(w), strconv.Itoa(i))
+				shared.ResponseHeaders()
+				shared.ResponseHeader("r0")
+				shared.RequestHeader("k0")
+				shared.Timeout()
+				shared.CorrelationID()
+				if ep, ok := shared.(frugal.FContextWithEphemeralProperties); ok {
+					ep.AddEphemeralProperty("e"+strconv.Itoa(w), i)
+					ep.EphemeralProperties()
+				}
+				if i%4 == 0 {
+					// a response read INTO the shared context while others use it
+					mem.Reset()
+					mem.Write(wire([][2]string{{"5f6f706964", "37"}, {"78" + strconv.Itoa(w%10), "62"}}))
+					p.ReadResponseHeader(shared)
+					// the shared context written as a request and as a response
+					out := thrift.NewTMemoryBuffer()
+					po := pf.GetProtocol(out)
+					po.WriteRequestHeader(shared)
+					po.WriteResponseHeader(shared)
+				}
 				id, err := frugal.VerifGetOpID(c)
 				if err == nil {
 					ids[w] = append(ids[w], id)
